@@ -54,6 +54,14 @@ pub fn check(cx: &Cx, rep: &mut Report) {
     // R4: the children it holds are released and stop gracefully
     let mut sub = Report::default();
     c16::check(cx, &mut sub);
+    // ... and a dead child must not cost its healthy siblings the parent's broadcasts ("other actors keep working")
+    if let Some(n) = sub.premises.get("C16.R3.broadcast_exactly_once") {
+        rep.premise_n("C06.R6.healthy_children_still_served", *n);
+    }
+    let lost: Vec<super::Violation> = sub.violations.iter().filter(|v| v.rule == "R3" && v.sig.contains("lost")).cloned().collect();
+    for v in lost {
+        rep.fail(P, "R6", format!("c16:{}:{}", v.rule, v.sig), v.msg, v.at);
+    }
     adopt(rep, sub, "R4", "c16", |v| v.rule == "R2");
     // R5: the registry treats it as not running
     let mut sub = Report::default();
